@@ -6,6 +6,16 @@ pub trait Subject {
     fn apply(&mut self, op: &[i128]) -> Ints;
     /// canonical snapshot (address-free)
     fn snapshot(&self) -> Ints;
+    /// configuration as the model needs it, when it is only known after construction
+    /// (sketch seeds, Bloom geometry)
+    fn cfg_override(&self) -> Option<Ints> {
+        None
+    }
+    /// the operation as it should be recorded, when the subject had to add data to it
+    /// (hash of a key under the real KeyHasher, pairs appended by fill_sample)
+    fn take_op_rewrite(&mut self) -> Option<Ints> {
+        None
+    }
 }
 
 pub fn opt_v(o: Option<u64>) -> Ints {
